@@ -1,4 +1,6 @@
 import FluentProofs.ResolverTotal
+import FluentProofs.ResolverBound
+import FluentProofs.ResolverFuel
 /-!
 # C06 — formatting is total and bounded
 
@@ -13,7 +15,11 @@ They are parametric in the limit: only `Generated.maxPlaceables ≤ 254` is used
 Contracts (hypotheses, stated where used):
 * `hcat : ∀ n, env.category n ≠ none` — the plural rules of the bundle's first locale are total (C12);
 * `hS : ∀ p, Reach env p → depthPat p ≤ S` — `S` bounds the syntactic depth of every message/term
-  value and attribute value of the bundle.
+  value and attribute value of the bundle;
+* for `output_bound`: `hReach : ∀ p, Reach env p → okPat env M E p` (every pattern of the bundle, at any
+  nesting, has ≤ `M` bytes of text; every literal and error token is ≤ `M` bytes; named arguments of
+  term calls are literals — as the grammar requires — printing in ≤ `E` bytes), `hArgs` / `hFn`
+  (caller arguments and function results print in ≤ `E` bytes).
 -/
 namespace FluentProofs.C06
 open FluentModel FluentModel.Syntax FluentModel.Resolver FluentProofs.Resolver
@@ -32,7 +38,8 @@ theorem maxPlaceables_le_254 : Generated.maxPlaceables ≤ 254 := by decide
 * `sc.dirty = true → sc'.dirty = true` (`dirty` is never reset);
 * `∃ l, sc'.errors = sc.errors ++ l ∧ l.count tooManyPlaceables = flip sc sc'` with
   `flip sc sc' = 1` if `dirty` went `false → true` during the call and `0` otherwise: the log only
-  grows and `TooManyPlaceables` is appended exactly at the moment the guard trips. -/
+  grows and `TooManyPlaceables` is appended exactly at the moment the guard trips;
+* `sc'.localArgs = sc.localArgs` (the arguments of the enclosing term call are back in force). -/
 theorem placeables_invariant (hmax : Generated.maxPlaceables ≤ 254) (env : Env) (n : Nat) :
     (∀ whole len els w sc w' sc', writeElems env n whole len els w sc = .ok (w', sc') → Step sc sc') ∧
     (∀ p w sc w' sc', writePattern env n p w sc = .ok (w', sc') → Step sc sc') ∧
@@ -217,6 +224,59 @@ theorem format_total (hmax : Generated.maxPlaceables ≤ 254) (env : Env) (hcat 
     · exact absurd hr (h2 m')
     · exact absurd hr h1
 
+
+/-- **The fuel is an artefact of the model.**  Whatever `format_pattern` / `write_pattern` return at some
+fuel (a result or a panic, anything but `.fuel`) they return at every larger fuel; with `format_total`:
+for every fuel ≥ `fuelBound S` the result is the same `.ok` value — in particular at the fuel the
+model driver passes, whenever `fuelBound S` is below it. -/
+theorem fuel_irrelevant (env : Env) (n m : Nat) (hnm : n ≤ m) (p : Pattern Bytes) :
+    (formatPattern env n p ≠ .fuel → formatPattern env m p = formatPattern env n p) ∧
+    (writePatternTop env n p ≠ .fuel → writePatternTop env m p = writePatternTop env n p) :=
+  ⟨formatPattern_fuel_irrelevant env n m hnm p, writePatternTop_fuel_irrelevant env n m hnm p⟩
+
+/-- the same for every function of the mutual block (one step of fuel) -/
+theorem fuel_irrelevant_block (env : Env) (n : Nat) : Mono env n := mono_all env n
+
+/-! ## T2 `output_bound` -/
+
+/-- **T2 output_bound.**  Let `M` bound the text bytes of every pattern of the bundle (message/term
+values, attributes, variant values at any nesting, after the transform) and every literal and error
+token, and `E` bound the printed size (`valueString`: formatter, number formatting, custom values) of
+every caller argument, every function result and every literal named argument of a term call.  Then
+every output of `format_pattern` and `write_pattern`, at any fuel, has at most
+`outBound M E = M + (maxPlaceables + 1) * (2 * M + E + 6)` bytes: linear in the limit, in the largest
+pattern and in the largest value — no multiplicative blow-up through reference chains. -/
+theorem output_bound (hmax : Generated.maxPlaceables ≤ 254) (env : Env) (M E : Nat)
+    (hReach : ∀ p, Reach env p → okPat env M E p)
+    (hArgs : ∀ k v, env.args.bind (·.get k) = some v → Small env E v)
+    (hFn : ∀ id f rp rn, env.fn id = some f → Small env E (f rp rn))
+    (p : Pattern Bytes) (hp : okPat env M E p) (fuel : Nat) (w : Bytes) (errs : List RErr) :
+    (formatPattern env fuel p = .ok (w, errs) → w.length ≤ M + (Generated.maxPlaceables + 1) * (2 * M + E + 6)) ∧
+    (writePatternTop env fuel p = .ok (w, errs) → w.length ≤ M + (Generated.maxPlaceables + 1) * (2 * M + E + 6)) := by
+  constructor
+  · intro h
+    unfold formatPattern at h
+    rcases hr : resolvePattern env fuel p {} with ⟨⟨w1, sc⟩⟩ | ⟨m⟩ | _ <;> rw [hr] at h <;> simp only [] at h
+    · cases h; exact resolvePattern_init_bound hmax env M E hReach hArgs hFn p hp fuel w sc hr
+    · cases h
+    · cases h
+  · intro h
+    unfold writePatternTop at h
+    rcases hr : writePattern env fuel p [] {} with ⟨⟨w1, sc⟩⟩ | ⟨m⟩ | _ <;> rw [hr] at h <;> simp only [] at h
+    · cases h; exact writePattern_init_bound hmax env M E hReach hArgs hFn p hp fuel w sc hr
+    · cases h
+    · cases h
+
+/-- The accounting behind `output_bound`, for every function that writes, every scope and writer:
+`|w'| + placeables * K ≤ |w| + direct + placeables' * K` with `K = 2 * M + E + 6` and `direct` = the
+text of the element list / pattern being written (`writeElems`, `writePattern`), `M` (`track`,
+`writeDefault`), `M + E` (`writeExpr`, `writeInline`). -/
+theorem output_accounting (hmax : Generated.maxPlaceables ≤ 254) (env : Env) (M E : Nat)
+    (hReach : ∀ p, Reach env p → okPat env M E p)
+    (hArgs : ∀ k v, env.args.bind (·.get k) = some v → Small env E v)
+    (hFn : ∀ id f rp rn, env.fn id = some f → Small env E (f rp rn)) (n : Nat) : Out env M E n :=
+  out_all hmax env M E hReach hArgs hFn n
+
 /-! ## tests (non-vacuity witnesses on concrete bundles; `decide` on literals) -/
 section tests
 
@@ -282,6 +342,22 @@ example : ∃ w errs, formatPattern (testEnv bomb) (fuelBound 6) [ref 5] = .ok (
       obtain ⟨kv, hm, rfl⟩ := reach_testEnv bomb p h
       exact (by decide : ∀ kv ∈ bomb, depthPat kv.2 ≤ 6) kv hm)
     [ref 5] (by decide) _ (Nat.le_refl _)).1
+
+/-- test: the hypotheses of `output_bound` are satisfiable — the bomb bundle with `M = 6`, `E = 0` -/
+example : ∀ w errs, formatPattern (testEnv bomb) (fuelBound 6) [ref 5] = .ok (w, errs) →
+    w.length ≤ 6 + (Generated.maxPlaceables + 1) * (2 * 6 + 0 + 6) :=
+  fun w errs => (output_bound maxPlaceables_le_254 (testEnv bomb) 6 0
+    (fun p h => by
+      obtain ⟨kv, hm, rfl⟩ := reach_testEnv bomb p h
+      simp [bomb] at hm
+      rcases hm with rfl | rfl | rfl | rfl | rfl | rfl <;>
+        simp [okPat, okElems, okElem, okExpr, okInline, textBytes, tokLen, ref, testEnv, inlineWriteError,
+          exprWriteError])
+    (fun k v h => by simp [testEnv] at h)
+    (fun id f rp rn h => by simp [testEnv] at h)
+    [ref 5]
+    (by simp [okPat, okElems, okElem, okExpr, okInline, textBytes, tokLen, ref, inlineWriteError, exprWriteError])
+    (fuelBound 6) w errs).1
 
 end tests
 end FluentProofs.C06
